@@ -51,7 +51,18 @@ _op = st.one_of(
 @st.composite
 def _case(draw, tier):
     nconn = draw(st.integers(1, 3))
-    conns = [[draw(st.one_of(st.none(), _db)), draw(st.one_of(st.none(), _sc))] for _ in range(nconn)]
+    # sessions that all start without any context (and get theirs from USE) or all from the same arguments are the ones whose
+    # contexts are most easily confused with each other, so they get a fixed share
+    profile = draw(st.sampled_from(["mixed", "mixed", "all-without-context", "same-arguments"]))
+    if profile == "all-without-context":
+        nconn = max(nconn, 2)
+        conns = [[None, None] for _ in range(nconn)]
+    elif profile == "same-arguments":
+        nconn = max(nconn, 2)
+        one = [draw(st.one_of(st.none(), _db)), draw(st.one_of(st.none(), _sc))]
+        conns = [list(one) for _ in range(nconn)]
+    else:
+        conns = [[draw(st.one_of(st.none(), _db)), draw(st.one_of(st.none(), _sc))] for _ in range(nconn)]
     n = 25 if tier == "quick" else 60
     return {"conns": conns, "preseed": draw(st.sampled_from([True, True, False])), "ops": draw(st.lists(_op, min_size=3, max_size=n))}
 
@@ -131,12 +142,13 @@ def run_history(case, ctx: Ctx) -> None:
             got = o.rows[0]
             if mdb is None:
                 if got[0] is not None:
-                    ctx.fail("C03|current-functions|no-current-database", f"conn{ci} has no current database but CURRENT_DATABASE() = {got[0]!r}")
+                    # the engine's default catalog is the listed finding; any other answer is some other session's context leaking in
+                    ctx.fail("C03|current-functions|no-current-database" + ("" if got[0] == "memory" else f"|answers-a-user-database|{situation}"), f"conn{ci} has no current database but CURRENT_DATABASE() = {got[0]!r}")
             elif got[0] != mdb:
                 ctx.fail(f"C03|current-functions|wrong-database|{situation}", f"conn{ci}: CURRENT_DATABASE() = {got[0]!r}, model {mdb!r}")
             if msc is None:
                 if got[1] is not None:
-                    ctx.fail("C03|current-functions|no-current-schema", f"conn{ci} has no current schema but CURRENT_SCHEMA() = {got[1]!r}")
+                    ctx.fail("C03|current-functions|no-current-schema" + ("" if got[1] == "main" else f"|answers-a-user-schema|{situation}"), f"conn{ci} has no current schema but CURRENT_SCHEMA() = {got[1]!r}")
             elif got[1] != msc:
                 ctx.fail(f"C03|current-functions|wrong-schema|{situation}", f"conn{ci}: CURRENT_SCHEMA() = {got[1]!r}, model {msc!r}")
 
